@@ -126,6 +126,16 @@ CLAIMED.update({
             "One concrete cell per catalogue entry (32 cell-level + 12 structural defects); base CIDs of 1-3 fields (thorough 1-6) "
             "and 0-2 checks (thorough 0-3); end-of-CID defects: no row asserted.",
             "DESIGN.md section 5, C09"),
+    "C10": ("TLA+ spec Hostile.tla (enumeration of every CID cell kind x field / check type and every data cell x column type x 24 "
+            "hostile classes x 4 formats, pairs in the thorough tier; legal outcome alphabet of Cid.read / rows / validate / command "
+            "line): every enumerated case is run against the real code; truncated and byte-flipped ODS / XLSX / XLS containers are "
+            "enumerated by the harness",
+            "TLC enumerates the places and fixes the alphabet (ok | InterfaceError for a CID, ok | DataError for data, exit code "
+            "0..3): any other exception type escaping Cid.read, cutplace.rows, cutplace.validate, and exit code 4 of "
+            "applications.main, is a violation. Which string breaks which cell is found by running the code.",
+            "The model contributes no verdict beyond the alphabet; 2-3 concrete strings per hostile class; container corruption at "
+            "every 64th byte (thorough: 16th); hostile data cells in delimited and fixed form.",
+            "DESIGN.md section 5, C10"),
 })
 
 NOT_BUILT = "check not built yet in this round (planned: see DESIGN.md section 5)"
